@@ -65,6 +65,9 @@ type Op struct {
 	RW     []string `json:"rw,omitempty"`
 	D      int      `json:"d,omitempty"` // denom of the bid coin
 	X      string   `json:"x,omitempty"` // amount of the bid coin
+	// bid only: deliver as a transaction would -- MsgPlaceBid.ValidateBasic, then the real msg
+	// server -- instead of calling the keeper (set for every other generated bid)
+	Msg bool `json:"msg,omitempty"`
 }
 
 type Params struct {
@@ -368,6 +371,14 @@ func (w *World) exec(op Op) (Class, error) {
 			_, err := w.k.StartCollateralAuction(ctx, modName[op.A], coin(op.LotD, op.Lot), coin(op.BidD, op.Bid), ra, rw, coin(op.DebtD, op.Debt))
 			return err
 		case "bid":
+			if op.Msg {
+				m := auctiontypes.NewMsgPlaceBid(op.ID, w.addrs[op.A].String(), coin(op.D, op.X))
+				if err := m.ValidateBasic(); err != nil {
+					return err
+				}
+				_, err := auctionkeeper.NewMsgServerImpl(w.k).PlaceBid(sdk.WrapSDKContext(ctx), &m)
+				return err
+			}
 			return w.k.PlaceBid(ctx, op.ID, w.addrs[op.A], coin(op.D, op.X))
 		case "close":
 			return w.k.CloseAuction(ctx, op.ID)
@@ -1346,9 +1357,16 @@ func runHist(seed uint64, idx, n int, params *Params, ops []Op, cnt *Counters) r
 			op = ops[i]
 		} else {
 			op = g.genOp(prev)
+			op.Msg = op.Kind == "bid" && (idx+i)%2 == 1
 		}
 		parts := w.oracleParts(prev, op)
 		cls, err := w.exec(op)
+		if op.Kind == "bid" && op.Msg && cnt != nil {
+			cnt.Inc("msg:bid-through-validate-basic-and-msg-server:" + cls.String())
+			if op.ID == 0 || bi(op.X).Sign() < 0 {
+				cnt.Inc("msg:bid-refused-by-validate-basic")
+			}
+		}
 		after := w.snap(w.ctx)
 		out.ops = append(out.ops, op)
 		if os.Getenv("C06_DEBUG") != "" {
@@ -1371,6 +1389,10 @@ func runHist(seed uint64, idx, n int, params *Params, ops []Op, cnt *Counters) r
 		steps = append(steps, fmt.Sprintf("(%s,\n    %s)", opCoq(op, parts), obsCoq(cls, prev, after)))
 		if out.fail == nil {
 			f := w.opMonitor(op, cls, prev, after, cnt, out.splits)
+			if f == nil && op.Kind == "bid" && op.Msg && cls == ClassOk && (op.ID == 0 || bi(op.X).Sign() < 0) {
+				// MsgPlaceBid.ValidateBasic: auction id not zero, amount a valid coin
+				f = mk("message-glue-refuses-malformed-bids", "bid-accepted-against-validate-basic", "auction %d amount %s", op.ID, op.X)
+			}
 			if f == nil && cls == ClassOk {
 				f = w.stateMonitor(w.ctx, after)
 			}
